@@ -1132,75 +1132,7 @@ func (c *Ctx) ruleChan(rule string) {
 		_ = n
 	}
 	c.R.Floor(rule, 3)
-	// client side: signal channels fetched from the guarded table
-	mutex := ro.mutexOf[ro.clientT]
-	for _, fn := range c.M.Funcs {
-		if !c.methodOrClosureOf(fn, ro.clientT) {
-			continue
-		}
-		for _, b := range fn.Blocks {
-			for _, in := range b.Instrs {
-				var ch ssa.Value
-				kind := ""
-				switch x := in.(type) {
-				case *ssa.Send:
-					ch, kind = x.Chan, "send"
-				case ssa.CallInstruction:
-					if bi, ok := x.Common().Value.(*ssa.Builtin); ok && bi.Name() == "close" {
-						ch, kind = x.Common().Args[0], "close"
-					}
-				}
-				if ch == nil {
-					continue
-				}
-				// channel obtained from the signal table?
-				var lk *ssa.Lookup
-				if e, ok := ch.(*ssa.Extract); ok {
-					lk, _ = e.Tuple.(*ssa.Lookup)
-				} else if l, ok := ch.(*ssa.Lookup); ok {
-					lk = l
-				}
-				if lk == nil || !strings.HasSuffix(c.M.ValPath(lk.X), "."+ro.sigTable) {
-					continue
-				}
-				base := strings.TrimSuffix(c.M.ValPath(lk.X), "."+ro.sigTable)
-				lock := base + "." + mutex
-				held := false
-				for _, l := range c.lockedAt(fn, in) {
-					if l == lock {
-						held = true
-					}
-				}
-				k := key(rule, c.M.Key(fn), kind+" on a channel from "+ro.clientT.Obj().Name()+"."+ro.sigTable)
-				switch {
-				case !held && c.sigSitesConfined():
-					c.R.Ok(rule, k, c.M.InstrPos(in), kind+" on a caller's signal channel", "not under the mutex, but every send and close of these channels is confined to the read loop's goroutine (R-SIGCHAN): they are sequential")
-				case !held:
-					c.R.Bad(rule, k, c.M.InstrPos(in), kind+" on a signal channel outside the client mutex", "the channel is fetched from the guarded table; without the lock the close in sendExecutionResult can interleave: send on closed channel")
-				case kind == "close":
-					// must be preceded in the same block by delete(table, key)
-					deleted := false
-					for _, in2 := range b.Instrs {
-						if in2 == in {
-							break
-						}
-						if ci, ok := in2.(ssa.CallInstruction); ok {
-							if bi, ok := ci.Common().Value.(*ssa.Builtin); ok && bi.Name() == "delete" && strings.HasSuffix(c.M.ValPath(ci.Common().Args[0]), "."+ro.sigTable) {
-								deleted = true
-							}
-						}
-					}
-					if deleted {
-						c.R.Ok(rule, k, c.M.InstrPos(in), "close of a signal channel", "under the client mutex, after removing the channel from the table every sender fetches it from: no send can follow")
-					} else {
-						c.R.Bad(rule, k, c.M.InstrPos(in), "signal channel closed while still in the table", "a later signal message finds the channel in the table and sends on the closed channel")
-					}
-				default:
-					c.R.Ok(rule, k, c.M.InstrPos(in), "send on a signal channel", "fetched from the table and sent under the client mutex, the same critical section discipline as the close")
-				}
-			}
-		}
-	}
+	// the client side (send / close of the callers' signal channels) is R-SIGCHAN's business
 }
 
 func isPanicOnly(b *ssa.BasicBlock) bool {
@@ -1609,6 +1541,9 @@ func (c *Ctx) ruleDeliver(rule string) {
 				}
 				n := core.StaticCalleeName(&call.Call)
 				isDecode := strings.HasSuffix(n, "cbor/v2.Decoder).Decode") || strings.HasSuffix(n, "cbor/v2.Unmarshal")
+				if call.Call.IsInvoke() && call.Call.Method.Name() == "Unmarshal" && isCborPkg(call.Call.Method.Pkg()) {
+					isDecode = true // DecMode.Unmarshal
+				}
 				if !isDecode {
 					continue
 				}
@@ -1620,10 +1555,6 @@ func (c *Ctx) ruleDeliver(rule string) {
 				}
 				k := key(rule, c.M.Key(fn), "decode of "+tdesc)
 				pos := c.M.InstrPos(call)
-				if strings.HasSuffix(tdesc, "SignalMessage") {
-					c.R.Except(rule, k, pos, "decode error of a signal payload", "E-SIGNAL: a lost signal payload loses no step result; only logged by design")
-					continue
-				}
 				// find the error branch
 				var errBlock *ssa.BasicBlock
 				if refs := call.Referrers(); refs != nil {
@@ -1704,7 +1635,147 @@ func (c *Ctx) ruleDeliver(rule string) {
 			}
 		}
 	}
-	c.R.Floor(rule, 4)
+	c.deliverResultClause(rule, ro, deliver)
+	c.R.Floor(rule, 8)
+}
+
+// deliverResultClause: a work-done message that decoded must reach a waiter. Its run ID travels in the same bytes as
+// everything else: where the pending table has no entry for it, the message was some pending run's result (or the
+// stream is damaged in other ways), and every waiter must be failed. In the read loop's handler of work-done
+// messages, every path from the successful decode to a return passes
+//   - a call that fails all waiters (a function all of whose paths reach a loop over the pending table that delivers), or
+//   - a delivery made where a comma-ok lookup of the run in the pending table is known to have found an entry.
+func (c *Ctx) deliverResultClause(rule string, ro *atpRoles, deliver map[*ssa.Function]bool) {
+	ranges := map[*ssa.Function]bool{}
+	for fn := range deliver {
+		for _, b := range fn.Blocks {
+			for _, in := range b.Instrs {
+				if rg, ok := in.(*ssa.Range); ok && c.isFieldLoad(rg.X, ro.clientT, ro.pending) {
+					ranges[fn] = true
+				}
+			}
+		}
+	}
+	mustFailAll := map[*ssa.Function]bool{}
+	for f := range ranges {
+		mustFailAll[f] = true
+	}
+	passesAll := func(fn *ssa.Function) bool {
+		seen := map[*ssa.BasicBlock]bool{}
+		var walk func(b *ssa.BasicBlock) bool
+		walk = func(b *ssa.BasicBlock) bool {
+			for _, in := range b.Instrs {
+				switch x := in.(type) {
+				case *ssa.Call:
+					for _, callee := range c.M.Callees(&x.Call) {
+						if mustFailAll[callee] {
+							return true
+						}
+					}
+				case *ssa.Return:
+					return false
+				case *ssa.Panic:
+					return true
+				}
+			}
+			for _, s := range b.Succs {
+				if seen[s] {
+					continue
+				}
+				seen[s] = true
+				if !walk(s) {
+					return false
+				}
+			}
+			return len(b.Succs) > 0
+		}
+		return len(fn.Blocks) > 0 && walk(fn.Blocks[0])
+	}
+	for round := 0; round < 4; round++ {
+		for _, fn := range c.M.SortedFuncs(c.scopePkg("atp")) {
+			if !mustFailAll[fn] && c.methodOrClosureOf(fn, ro.clientT) && passesAll(fn) {
+				mustFailAll[fn] = true
+			}
+		}
+	}
+	inTree := c.M.Reachable([]*ssa.Function{ro.readLoop}, nil)
+	n := 0
+	for _, fn := range c.M.SortedFuncs(c.scopePkg("atp")) {
+		if !inTree[fn] || fn == ro.readLoop || !c.methodOrClosureOf(fn, ro.clientT) {
+			continue
+		}
+		for _, b := range fn.Blocks {
+			for _, in := range b.Instrs {
+				call, ok := in.(*ssa.Call)
+				if !ok {
+					continue
+				}
+				isDecode := strings.HasSuffix(core.StaticCalleeName(&call.Call), "cbor/v2.Unmarshal") ||
+					(call.Call.IsInvoke() && call.Call.Method.Name() == "Unmarshal" && isCborPkg(call.Call.Method.Pkg()))
+				if !isDecode {
+					continue
+				}
+				mi, ok := call.Call.Args[len(call.Call.Args)-1].(*ssa.MakeInterface)
+				if !ok || !strings.HasSuffix(typeStr(mi.X.Type()), "WorkDoneMessage") {
+					continue
+				}
+				var okBlock *ssa.BasicBlock
+				if refs := call.Referrers(); refs != nil {
+					for _, r := range *refs {
+						if bin, ok := r.(*ssa.BinOp); ok {
+							if _, neq, isNil := core.NilCmp(bin); isNil {
+								for _, r2 := range *bin.Referrers() {
+									if ifi, ok := r2.(*ssa.If); ok {
+										if neq {
+											okBlock = ifi.Block().Succs[1]
+										} else {
+											okBlock = ifi.Block().Succs[0]
+										}
+									}
+								}
+							}
+						}
+					}
+				}
+				if okBlock == nil {
+					continue
+				}
+				n++
+				k := key(rule, c.M.Key(fn), "a decoded result reaches its waiter, or all of them")
+				found := func(blk *ssa.BasicBlock) bool {
+					for _, cond := range core.CondsAt(blk) {
+						if ex, ok := cond.V.(*ssa.Extract); ok && ex.Index == 1 && cond.True {
+							if lk, ok := ex.Tuple.(*ssa.Lookup); ok && lk.CommaOk && c.isFieldLoad(lk.X, ro.clientT, ro.pending) {
+								return true
+							}
+						}
+					}
+					return false
+				}
+				reaches := everyPathSat(okBlock, func(blk *ssa.BasicBlock, in ssa.Instruction) bool {
+					x, ok := in.(*ssa.Call)
+					if !ok {
+						return false
+					}
+					for _, callee := range c.M.Callees(&x.Call) {
+						if mustFailAll[callee] || (deliver[callee] && found(blk)) {
+							return true
+						}
+					}
+					return false
+				})
+				if reaches {
+					c.R.Ok(rule, k, c.M.InstrPos(call), "a work-done message that decoded", "every path to the handler's return delivers to the run's entry where the pending table is known to hold one, or fails all waiters")
+				} else {
+					c.R.Bad(rule, k, c.M.InstrPos(call), "a decoded result can be dropped when no run of that ID is waiting",
+						"a path from the successful decode to the handler's return delivers without knowing that the pending table holds the run (the delivery only logs when it does not) and fails nobody: one changed bit in the run ID loses the result of a pending run, whose Execute call never returns")
+				}
+			}
+		}
+	}
+	if n == 0 {
+		c.R.Unresolved(rule, "handler of work-done messages in the client's read loop")
+	}
 }
 
 // allPathsDeliver: every path from start to a Return passes a call to a delivery function, or the Return hands a
@@ -2020,6 +2091,7 @@ func (c *Ctx) ruleSigChan(rule string) {
 		fn   *ssa.Function
 		in   ssa.Instruction
 		what string
+		ch   ssa.Value
 	}
 	var sites []site
 	var unconditional []ssa.Instruction
@@ -2029,13 +2101,13 @@ func (c *Ctx) ruleSigChan(rule string) {
 				switch x := in.(type) {
 				case *ssa.Send:
 					if fromTable(x.Chan) {
-						sites = append(sites, site{fn, in, "send"})
+						sites = append(sites, site{fn, in, "send", x.Chan})
 						unconditional = append(unconditional, in)
 					}
 				case *ssa.Select:
 					for _, st := range x.States {
 						if st.Dir == types.SendOnly && fromTable(st.Chan) {
-							sites = append(sites, site{fn, in, "send"})
+							sites = append(sites, site{fn, in, "send", st.Chan})
 							// a way out: a receive from a Done() channel among the other cases
 							out := false
 							for _, o := range x.States {
@@ -2055,45 +2127,112 @@ func (c *Ctx) ruleSigChan(rule string) {
 					}
 				case *ssa.Call:
 					if bi, ok := x.Call.Value.(*ssa.Builtin); ok && bi.Name() == "close" && len(x.Call.Args) == 1 && fromTable(x.Call.Args[0]) {
-						sites = append(sites, site{fn, in, "close"})
+						sites = append(sites, site{fn, in, "close", x.Call.Args[0]})
 					}
 				}
 			}
 		}
 	}
-	allConfined, allLocked := true, true
-	stateMutex := ro.mutexOf[ro.clientT]
-	locked := func(s site) bool {
-		for _, l := range c.lockedAt(s.fn, s.in) {
-			if strings.HasSuffix(l, "."+stateMutex) {
-				return true
+	// A send and a close of the same table's channels must exclude each other: both on the read loop's goroutine
+	// (sequential), both under the state mutex, or - a send of the read loop outside the mutex against a close under
+	// it - by the hand-over marker: the read loop publishes the channel it is sending on, the closer leaves exactly
+	// that channel to the read loop.
+	confined := func(s site) bool { return inTree[s.fn] && !shared[s.fn] }
+	locked := func(s site) bool { return c.stateLocked(s.fn, s.in, ro) }
+	markers := map[ssa.Instruction]handOver{}
+	pairSafe := func(snd, cl site) (bool, string) {
+		switch {
+		case confined(snd) && confined(cl):
+			return true, "both are confined to the read loop's goroutine: they are sequential"
+		case locked(snd) && locked(cl):
+			return true, "both hold the state mutex"
+		case confined(snd) && locked(cl):
+			ho, ok := markers[snd.in]
+			if !ok {
+				ho = c.sendSideMarker(snd.fn, snd.in, snd.ch, ro)
+				markers[snd.in] = ho
 			}
+			if ho.why != "" {
+				return false, "the send at " + c.M.InstrPos(snd.in) + " is made outside the mutex and not announced: " + ho.why
+			}
+			if !c.closeSpares(cl.fn, cl.in, cl.ch, ho.marker, ro) {
+				return false, "the close does not sit on the outcome 'not the channel named by " + ho.marker + "' of a comparison made in its critical section"
+			}
+			if _, why := c.deferredClose(cl.fn, cl.ch, ho.marker, ho, ro); why != "" {
+				return false, why
+			}
+			return true, "the read loop announces the channel it is sending on in " + ho.marker + " (set with the lookup, cleared after the send, both under the mutex); the close under the mutex spares that channel and leaves it to the read loop, which closes it after the send"
 		}
-		return false
-	}
-	for _, s := range sites {
-		if !(inTree[s.fn] && !shared[s.fn]) {
-			allConfined = false
-		}
-		if !locked(s) {
-			allLocked = false
-		}
+		return false, "neither goroutine confinement nor the state mutex nor the hand-over marker separates them"
 	}
 	cnt := map[string]int{}
 	for _, s := range sites {
 		cnt[c.M.Key(s.fn)+s.what]++
 		k := key(rule, c.M.Key(s.fn), sprintf("%s #%d on a channel of the signal table", s.what, cnt[c.M.Key(s.fn)+s.what]))
-		confined := inTree[s.fn] && !shared[s.fn]
+		bad, reasons := "", map[string]bool{}
+		for _, o := range sites {
+			if o.what == s.what {
+				continue
+			}
+			var ok bool
+			var why string
+			if s.what == "send" {
+				ok, why = pairSafe(s, o)
+			} else {
+				ok, why = pairSafe(o, s)
+			}
+			if !ok && bad == "" {
+				bad = "against the " + o.what + " at " + c.M.InstrPos(o.in) + ": " + why
+			}
+			if ok {
+				reasons[why] = true
+			}
+		}
+		if bad == "" {
+			var rs []string
+			for r := range reasons {
+				rs = append(rs, r)
+			}
+			sort.Strings(rs)
+			c.R.Ok(rule, k, c.M.InstrPos(s.in), "send / close of a caller's signal channel", strings.Join(rs, "; "))
+		} else {
+			c.R.Bad(rule, k, c.M.InstrPos(s.in), "a "+s.what+" on a caller's signal channel can meet a "+map[string]string{"send": "close", "close": "send"}[s.what]+" from another goroutine",
+				bad+": a close that hits a send in flight ('send on closed channel') kills the process")
+		}
+	}
+	// a close goes with the removal of the table entry, so that no later hand-over finds a closed channel
+	cnt = map[string]int{}
+	for _, s := range sites {
+		if s.what != "close" {
+			continue
+		}
+		cnt[c.M.Key(s.fn)]++
+		k := key(rule, c.M.Key(s.fn), sprintf("close #%d goes with the removal of the table entry", cnt[c.M.Key(s.fn)]))
+		lk := lookupOf(s.ch)
 		switch {
-		case allConfined:
-			c.R.Ok(rule, k, c.M.InstrPos(s.in), "send / close of a caller's signal channel", "every send and close of these channels is confined to the read loop's goroutine: they are sequential, a close cannot hit a send in flight")
-		case allLocked:
-			c.R.Ok(rule, k, c.M.InstrPos(s.in), "send / close of a caller's signal channel", "every send and close holds the state mutex")
-		case confined || locked(s):
-			c.R.Ok(rule, k, c.M.InstrPos(s.in), "send / close of a caller's signal channel", "this site is confined / locked; the offending site is reported")
+		case lk != nil && c.sameCriticalSection(s.fn, lk, s.in, ro):
+			if c.tableDeleteNear(s.fn, s.in, ro) {
+				c.R.Ok(rule, k, c.M.InstrPos(s.in), "close of a caller's signal channel", "the channel is looked up, removed from the table and closed in one critical section")
+			} else {
+				c.R.Bad(rule, k, c.M.InstrPos(s.in), "a signal channel is closed but stays in the table",
+					"the next emitted signal for that run ID is sent on the closed channel: 'send on closed channel' kills the process")
+			}
 		default:
-			c.R.Bad(rule, k, c.M.InstrPos(s.in), "a caller's signal channel is used outside the read loop's goroutine without the state mutex",
-				"the read loop sends emitted signals on this channel without holding the mutex, relying on being the only goroutine that closes it; a "+s.what+" from another goroutine can hit a send in flight ('send on closed channel' kills the process) or deliver after the close")
+			// looked up in an earlier critical section: only the deferred close of the marker protocol may do that
+			flagged := false
+			for _, cond := range core.CondsAt(s.in.Block()) {
+				if ld, ok := cond.V.(*ssa.UnOp); ok && cond.True {
+					if fa, ok := ld.X.(*ssa.FieldAddr); ok && structOf(fa.X.Type()) != nil && structOf(fa.X.Type()).Obj() == ro.clientT.Obj() {
+						flagged = true
+					}
+				}
+			}
+			if flagged && confined(s) && locked(s) {
+				c.R.Ok(rule, k, c.M.InstrPos(s.in), "close of a caller's signal channel", "the read loop closes the channel it has just sent on because the closer, which removed it from the table, asked it to")
+			} else {
+				c.R.Bad(rule, k, c.M.InstrPos(s.in), "a signal channel is closed that was looked up in an earlier critical section",
+					"the table may have lost or replaced the entry in between: the close can hit a channel that was closed already, or one that belongs to a new run")
+			}
 		}
 	}
 	// a hand-over to the caller must have a way out: the caller may have stopped listening when it calls Close, and
@@ -2102,6 +2241,87 @@ func (c *Ctx) ruleSigChan(rule string) {
 		k := key(rule, c.M.Key(in.Parent()), sprintf("hand-over #%d to the caller's channel can be abandoned on Close", i+1))
 		c.R.Bad(rule, k, c.M.InstrPos(in), "an emitted signal is handed to the caller with an unconditional send",
 			"a caller that has stopped receiving (it is shutting down and calls Close) keeps the read loop in this send for ever; Close cancels the client's context but waits for the read loop, so Close and every pending Execute hang")
+	}
+	// the end of a run closes its signal channel: the caller's consumer (for sig := range ch) must not wait for ever.
+	// A run ends where its result is stored, or where its pending entry is removed without one.
+	nEnds := 0
+	for _, fn := range c.M.SortedFuncs(c.scopePkg("atp")) {
+		if !c.methodOrClosureOf(fn, ro.clientT) {
+			continue
+		}
+		nStore, nDel := 0, 0
+		for _, b := range fn.Blocks {
+			for _, in := range b.Instrs {
+				switch x := in.(type) {
+				case *ssa.Store:
+					fa, ok := x.Addr.(*ssa.FieldAddr)
+					if !ok {
+						continue
+					}
+					if _, fresh := fa.X.(*ssa.Alloc); fresh {
+						continue
+					}
+					sn := structOf(fa.X.Type())
+					if sn == nil || sn.Obj().Pkg() != ro.clientT.Obj().Pkg() || sn.Obj() == ro.clientT.Obj() {
+						continue
+					}
+					est := fieldsOf(sn)
+					hasCond := false
+					for i := 0; est != nil && i < est.NumFields(); i++ {
+						if isNamed(est.Field(i).Type(), "sync", "Cond") {
+							hasCond = true
+						}
+					}
+					if !hasCond || isNamed(est.Field(fa.Field).Type(), "sync", "Cond") {
+						continue
+					}
+					nStore++
+					nEnds++
+					k := key(rule, c.M.Key(fn), sprintf("result store #%d is followed by the close of the run's signal channel", nStore))
+					if c.everyPathClosesSig(fn, in, ro) {
+						c.R.Ok(rule, k, c.M.InstrPos(in), "end of a run (its result is stored)", "every path from the store to the end of the critical section closes the run's signal channel or finds that it has none")
+					} else {
+						c.R.Bad(rule, k, c.M.InstrPos(in), "a run gets its result but its signal channel can stay open",
+							"a path from the result store to the end of the critical section neither closes the channel registered for the run nor finds that there is none: the caller's goroutine that ranges over the channel never ends")
+					}
+				case *ssa.Call:
+					bi, ok := x.Call.Value.(*ssa.Builtin)
+					if !ok || bi.Name() != "delete" || !c.isFieldLoad(x.Call.Args[0], ro.clientT, ro.pending) {
+						continue
+					}
+					// the collector removes the entry of a run that has its result: the channel was closed with the store
+					collected := false
+					for _, cond := range core.CondsAt(b) {
+						v, neq, isNil := core.NilCmp(cond.V)
+						if !isNil || neq != cond.True {
+							continue
+						}
+						if ld, ok := core.Unwrap(v).(*ssa.UnOp); ok {
+							if fa, ok := ld.X.(*ssa.FieldAddr); ok {
+								if sn := structOf(fa.X.Type()); sn != nil && sn.Obj() != ro.clientT.Obj() && sn.Obj().Pkg() == ro.clientT.Obj().Pkg() {
+									collected = true
+								}
+							}
+						}
+					}
+					nDel++
+					nEnds++
+					k := key(rule, c.M.Key(fn), sprintf("removal #%d of a pending entry leaves no open signal channel behind", nDel))
+					switch {
+					case collected:
+						c.R.Ok(rule, k, c.M.InstrPos(in), "removal of a pending entry", "the entry removed has its result (tested non-nil on the way): its channel was closed where the result was stored")
+					case c.everyPathClosesSig(fn, in, ro):
+						c.R.Ok(rule, k, c.M.InstrPos(in), "end of a run (its pending entry is removed without a result)", "every path from the removal to the end of the critical section closes the run's signal channel, leaves the close to the read loop that is sending on it, or finds that there is none")
+					default:
+						c.R.Bad(rule, k, c.M.InstrPos(in), "a run is forgotten but its signal channel can stay registered and open",
+							"the pending entry is removed without a result, and a path to the end of the critical section neither closes the run's signal channel nor finds that there is none: nothing closes it later (results close the channels of pending runs only), the caller's goroutine that ranges over it never ends")
+					}
+				}
+			}
+		}
+	}
+	if nEnds < 2 {
+		c.R.Unresolved(rule, "places where a run of the ATP client ends (result store, removal of a pending entry)")
 	}
 	if len(unconditional) == 0 && len(sites) > 0 {
 		c.R.Ok(rule, key(rule, "signal hand-over", "every send to a caller's channel has a way out"), "-", "hand-over of emitted signals", "every send on a signal-table channel is a select case next to a receive from a Done() channel (or non-blocking)")
@@ -2184,9 +2404,21 @@ func (c *Ctx) mutexGuardsNoState(target *types.Named, mutex string) bool {
 			mutable[a.field] = true
 		}
 	}
+	// an access that also sits in a critical section of another mutex of the struct is that mutex's business
+	otherwise := map[ssa.Instruction]bool{}
+	for _, m := range allMutexFields(target) {
+		if m == mutex {
+			continue
+		}
+		for _, a := range c.collectAccesses(target, m) {
+			if a.locked && !a.constr {
+				otherwise[a.in] = true
+			}
+		}
+	}
 	n := 0
 	for _, a := range accs {
-		if a.constr || !a.locked {
+		if a.constr || !a.locked || otherwise[a.in] {
 			continue
 		}
 		ft := fieldType(target, a.field)
@@ -2599,16 +2831,47 @@ func (c *Ctx) ruleSignalOrder(rule string) {
 func (c *Ctx) ruleDoneGate(rule string) {
 	ro := c.roles()
 	if ro.ok && ro.doneFlag == "" {
-		// the client's other boolean: the one that is not the read loop's running flag
-		if st, ok := ro.clientT.Underlying().(*types.Struct); ok {
-			var cands []string
-			for i := 0; i < st.NumFields(); i++ {
-				if b, ok := st.Field(i).Type().Underlying().(*types.Basic); ok && b.Kind() == types.Bool && st.Field(i).Name() != ro.runFlag {
-					cands = append(cands, st.Field(i).Name())
+		// the closing flag: a boolean field of the client, other than the read loop's running flag, that is stored
+		// `true` by a method which goes on to wait for the client's goroutines ((*sync.WaitGroup).Wait reachable)
+		cands := map[string]bool{}
+		for _, fn := range c.M.SortedFuncs(c.scopePkg("atp")) {
+			if !c.isMethodOf(fn, ro.clientT) {
+				continue
+			}
+			waits := false
+			for g := range c.M.Reachable([]*ssa.Function{fn}, nil) {
+				for _, bb := range g.Blocks {
+					for _, in := range bb.Instrs {
+						if call, ok := in.(*ssa.Call); ok && strings.HasSuffix(core.StaticCalleeName(&call.Call), "sync.WaitGroup).Wait") {
+							waits = true
+						}
+					}
 				}
 			}
-			if len(cands) == 1 {
-				ro.doneFlag = cands[0]
+			if !waits {
+				continue
+			}
+			for _, bb := range fn.Blocks {
+				for _, in := range bb.Instrs {
+					st, ok := in.(*ssa.Store)
+					if !ok {
+						continue
+					}
+					fa, ok := st.Addr.(*ssa.FieldAddr)
+					if !ok || structOf(fa.X.Type()) != ro.clientT {
+						continue
+					}
+					if cst, ok := st.Val.(*ssa.Const); ok && cst.Value != nil && cst.Value.String() == "true" {
+						if name := fieldName(fa.X.Type(), fa.Field); name != ro.runFlag {
+							cands[name] = true
+						}
+					}
+				}
+			}
+		}
+		if len(cands) == 1 {
+			for name := range cands {
+				ro.doneFlag = name
 			}
 		}
 	}
